@@ -135,8 +135,10 @@ Opt(x) == IF IsErr(x) THEN None ELSE [some |-> x.ok]
 \* A required tag absent or wrongly typed: an error (which one is not fixed by the documentation).
 Widen(d) == <<0, 0>> \o d
 HexLenOk(algo, n) == (algo = 1 /\ n = 32) \/ (algo = 8 /\ n = 64) \/ (algo = 9 /\ n = 96) \/ (algo = 10 /\ n = 128) \/ (algo = 11 /\ n = 56)
-FileEntriesExpected(b, h) ==
-    LET modes == GetU16Arr(b, h, 1030) IN
+FileEntriesExpected(b, h) ==      \* (IMA signatures live in the signature header at SigAt, tag 274)
+    LET modes == GetU16Arr(b, h, 1030)
+        ima == GetStrArr(b, SigAt, 274)
+        imaBad == IsErr(ima) /\ ima.err # "TagNotFound" IN
     IF IsErr(modes) /\ modes.err = "TagNotFound" THEN Ok(<<>>)
     ELSE LET users == GetStrArr(b, h, 1039)  groups == GetStrArr(b, h, 1040)  digs == GetStrArr(b, h, 1035)
              mt == GetU32Arr(b, h, 1034)  fl == GetU32Arr(b, h, 1037)  lk == GetStrArr(b, h, 1036)
@@ -148,7 +150,7 @@ FileEntriesExpected(b, h) ==
              a == GetU32(b, h, 5011)
              algo == IF IsErr(a) \/ ~IsSmallIdx(a.ok) \/ Lo(a.ok) \notin {1, 8, 9, 10, 11, 12, 14} THEN 1 ELSE Lo(a.ok)
          IN IF IsErr(modes) \/ IsErr(users) \/ IsErr(groups) \/ IsErr(digs) \/ IsErr(mt) \/ IsErr(sizes) \/ IsErr(fl)
-               \/ IsErr(lk) \/ capsBad \/ IsErr(paths) THEN ErrV("any")
+               \/ IsErr(lk) \/ capsBad \/ imaBad \/ IsErr(paths) THEN ErrV("any")
             ELSE LET m == Least(Least(Least3(Len(paths.ok), Len(users.ok), Len(groups.ok)), Least3(Len(modes.ok), Len(digs.ok), Len(mt.ok))),
                               Least3(Len(sizes.ok), Len(fl.ok), Len(lk.ok))) IN
                  IF \E i \in 1..m : digs.ok[i] # <<>> /\ ~HexLenOk(algo, Len(digs.ok[i])) THEN ErrV("any")
@@ -156,7 +158,8 @@ FileEntriesExpected(b, h) ==
                         [path |-> paths.ok[i], user |-> users.ok[i], group |-> groups.ok[i], mode |-> modes.ok[i],
                          digest |-> IF digs.ok[i] = <<>> THEN None ELSE [some |-> digs.ok[i]],
                          mtime |-> mt.ok[i], size |-> sizes.ok[i], flags |-> fl.ok[i], linkto |-> lk.ok[i],
-                         caps |-> IF IsErr(caps) \/ i > Len(caps.ok) THEN None ELSE [some |-> caps.ok[i]]]])
+                         caps |-> IF IsErr(caps) \/ i > Len(caps.ok) THEN None ELSE [some |-> caps.ok[i]],
+                         ima |-> IF IsErr(ima) \/ i > Len(ima.ok) THEN None ELSE [some |-> ima.ok[i]]]])
 
 \* scriptlets: script (string) required; flags (u32) and prog (string array) optional
 ScriptTags == [ get_pre_install_script |-> <<1023, 5020, 1085>>, get_post_install_script |-> <<1024, 5021, 1086>>,
